@@ -51,9 +51,17 @@ func checkC16(c *vx.Ctx) {
 		name    string
 		nshards int
 	}
+	// The largest families are limited to the stores with refusal rules or compound loads.
+	bigFamilyStores := map[string]bool{"action": true, "round": true, "finalization": true, "validator": true}
+	skip := func(family, store string) bool {
+		return (family == "3x211p" || family == "3x222") && !bigFamilyStores[store]
+	}
 	concJobs := func(fams []fam) (out []vx.Job) {
 		for _, f := range fams {
 			for _, name := range kindOrder {
+				if skip(f.name, name) {
+					continue
+				}
 				n := f.nshards
 				if tot := len(scenariosOf(kinds[name], f.name)); tot < n {
 					n = tot
@@ -69,6 +77,9 @@ func checkC16(c *vx.Ctx) {
 	raceJobs := func(fams []fam) (out []vx.Job) {
 		for _, f := range fams {
 			for _, name := range kindOrder {
+				if skip(f.name, name) {
+					continue
+				}
 				n := f.nshards
 				if tot := len(scenariosOf(kinds[name], f.name)); tot < n {
 					n = tot
@@ -81,7 +92,7 @@ func checkC16(c *vx.Ctx) {
 		}
 		return
 	}
-	// Sequential: quick = core alphabet, length 4; thorough = core alphabet, length 5, and full alphabet, length 4.
+	// Sequential: quick = core alphabet, length 4; thorough = full alphabet, length 4, and mini alphabet, length 5.
 	// Shards by the first P operations, plus one job per store for the nodes of depth <= P.
 	type seqPlan struct {
 		alphabet string
@@ -118,7 +129,7 @@ func checkC16(c *vx.Ctx) {
 		jobs = append(jobs, concJobs(concFams[1:])...)
 		jobs = append(jobs, raceJobs(raceFams[1:])...)
 	} else {
-		plans = []seqPlan{{"full", 4, 1}, {"core", 5, 2}}
+		plans = []seqPlan{{"full", 4, 1}, {"mini", 5, 2}}
 		concFams = []fam{{"2x1", 1}, {"3x1", 8}, {"2x2", 12}, {"3x211p", 40}}
 		raceFams = []fam{{"2x1", 2}, {"3x1", 6}, {"2x2", 48}, {"3x211p", 8}, {"3x222", 1}}
 		jobs = append(jobs, raceJobs(raceFams[:1])...)
@@ -204,6 +215,7 @@ func checkC16(c *vx.Ctx) {
 		"operations_executed":   c.Counter("seq_impl_ops"),
 		"alphabet_sizes_full":  alphabetSizes("full"),
 		"alphabet_sizes_core":  alphabetSizes("core"),
+		"alphabet_sizes_mini":  alphabetSizes("mini"),
 	}
 	c.Extra["concurrent"] = map[string]any{
 		"families":                       famNames(concFams, !quick),
@@ -240,7 +252,7 @@ func checkC16(c *vx.Ctx) {
 
 	c.Rule = "Part 1: every operation sequence of the stated length over each store's alphabet (value universe with forced key collisions: 3 height/round slots, 2 block hashes identical across heights, 3 keys, 2 validator sets, 3 signature collections) is run on a fresh real tmmemstore store and every return value is compared with a plain-Go reference model; a case is one shard (all sequences with a given first operation(s)), non-trivial when it saw a refusal error, a successful load of stored data and >= 2 distinct store states. " +
 		"Part 2: for every scenario of the listed families over each store's collision alphabet ALL schedules at thread start/Lock/RLock/Unlock/RUnlock points are enumerated on the sync-shimmed copy and each history is checked for linearizability by brute force; a case is one shard of scenarios, non-trivial when it produced at least one history in which operations of different threads overlap in real time. " +
-		"Part 3: the same thread bodies run free 200x under -race; a case is one shard of scenarios. " +
+		"Part 3: the same thread bodies run free 200x under -race on the real tmmemstore; a case is one shard of scenarios, non-trivial when for some scenario the free runs produced at least two different output vectors (the threads really interleaved in more than one way). " +
 		"evaluations = sequences + schedules + free runs; states = distinct canonical store states (rendering of loading every key of the real store after a sequence), summed over stores; transitions = sequential operations checked + schedule steps."
 	c.Assume("heights >= 1, non-empty signatures, non-nil public keys (the stores use the zero values as 'absent' markers)")
 	c.Assume("callers do not modify values after passing them to a store or after receiving them from it (tmmemstore keeps and returns references; nil and empty slices/maps are treated alike)")
@@ -299,8 +311,6 @@ func alphabetSizes(which string) map[string]int {
 	}
 	return m
 }
-
-type famLike interface{}
 
 func famNames[T any](fs []T, with222 bool) []string {
 	var out []string
